@@ -412,6 +412,9 @@ func c10R1(c *Check, sr *storeRoles) {
 	// own applies a limit whose timeout is zero
 	if c.ID == "C10" {
 		importObls(c, "C12", checkC12, "C10.R1", func(o *Obligation) bool { return strings.HasPrefix(o.Key, "C12.R6/") })
+		// the timeouts a store is built with are the filter's own: an override is merged into a copy of the defaults, never
+		// into the shared default configuration itself (C18.R3) — otherwise one chain's longer timeouts leak into the next
+		importObls(c, "C18", checkC18, "C10.R4", func(o *Obligation) bool { return strings.HasPrefix(o.Key, "C18.R3/merge-into-own-copy") })
 	}
 	// ---- every lookup passes the predicate
 	nLookups := 0
